@@ -34,6 +34,7 @@ type fsmTrans struct {
 	Stores []string // "field=value" stores to tracked plain fields / locals of interest
 	Locals map[string]string // loop-carried locals at the end of the iteration: name -> new value ("=" if unchanged)
 	RetPos token.Pos
+	RetOffs string // returned offset (first int result), rendered with source names
 	AtPos  token.Pos
 }
 
@@ -353,6 +354,28 @@ func (r *fsmRunner) walk(b *ssa.BasicBlock, p fsmPath, from int64, out *[]fsmTra
 				}
 			}
 		}
+		// merge phis met on the way (e.g. prologue selections): the latest phi of each variable wins
+		latest := map[string]*ssa.Phi{}
+		for ph := range p.phis {
+			if ph.Comment == "" || ph.Block() == b {
+				continue
+			}
+			if _, isHead := locals[ph.Comment]; isHead {
+				continue
+			}
+			if cur, ok := latest[ph.Comment]; !ok || ph.Block().Index > cur.Block().Index {
+				latest[ph.Comment] = ph
+			}
+		}
+		for name, ph := range latest {
+			v := p.phis[ph]
+			if isIntType(v.Type()) {
+				le := newLinEnv(linOpts{})
+				locals[name] = le.pretty(le.norm(stripWiden(v)))
+			} else {
+				locals[name] = srcName(v)
+			}
+		}
 		*out = append(*out, fsmTrans{From: from, Bytes: p.bytes, To: to, Calls: p.calls, Conds: p.conds, Stores: p.stores, Locals: locals})
 		return
 	}
@@ -393,6 +416,9 @@ func (r *fsmRunner) walk(b *ssa.BasicBlock, p fsmPath, from int64, out *[]fsmTra
 			}
 		case *ssa.Return:
 			t := fsmTrans{From: from, Bytes: p.bytes, To: p.st, Exit: "return", Calls: p.calls, Conds: p.conds, Stores: p.stores, RetPos: x.Pos()}
+			if len(x.Results) > 0 && isIntType(x.Results[0].Type()) {
+				t.RetOffs = r.prettyOnPath(x.Results[0], &p)
+			}
 			if ei := errResultIndex(r.spec.fn); ei >= 0 {
 				rv := x.Results[ei]
 				if k, ok := constIntOf(rv); ok {
@@ -626,7 +652,7 @@ func (r *fsmResult) grouped(ts []fsmTrans) []fsmTrans {
 	idx := map[string]int{}
 	var out []fsmTrans
 	for _, t := range ts {
-		k := fmt.Sprintf("%d|%d|%s|%d|%v|%v|%v|%v", t.From, t.To, t.Exit, t.Verd, t.Calls, t.Conds, t.Stores, t.Locals)
+		k := fmt.Sprintf("%d|%d|%s|%d|%v|%v|%v|%v|%s", t.From, t.To, t.Exit, t.Verd, t.Calls, t.Conds, t.Stores, t.Locals, t.RetOffs)
 		if i, ok := idx[k]; ok {
 			out[i].Bytes = out[i].Bytes.union(t.Bytes)
 			continue
@@ -635,4 +661,37 @@ func (r *fsmResult) grouped(ts []fsmTrans) []fsmTrans {
 		out = append(out, t)
 	}
 	return out
+}
+
+// prettyOnPath renders an integer value with merge phis replaced by the values they take on this path.
+func (r *fsmRunner) prettyOnPath(v ssa.Value, p *fsmPath) string {
+	var sub func(v ssa.Value, depth int) ssa.Value
+	sub = func(v ssa.Value, depth int) ssa.Value {
+		for i := 0; i < 8; i++ {
+			ph, ok := v.(*ssa.Phi)
+			if !ok {
+				return v
+			}
+			nv, has := p.phis[ph]
+			if !has || nv == v {
+				return v
+			}
+			v = nv
+		}
+		return v
+	}
+	v = sub(v, 0)
+	if b, ok := v.(*ssa.BinOp); ok && (b.Op == token.ADD || b.Op == token.SUB) {
+		x, y := sub(b.X, 0), sub(b.Y, 0)
+		le := newLinEnv(linOpts{})
+		l := le.norm(x)
+		if b.Op == token.ADD {
+			l = l.add(le.norm(y), 1)
+		} else {
+			l = l.add(le.norm(y), -1)
+		}
+		return le.pretty(l)
+	}
+	le := newLinEnv(linOpts{})
+	return le.pretty(le.norm(v))
 }
